@@ -1388,6 +1388,479 @@ def inline_methods(fn: ast.AST, methods: dict[str, ast.AST], exclude: t.Collecti
     return new_fn, inlined
 
 
+def _set_parents(root: ast.AST) -> None:
+    for n in ast.walk(root):
+        for ch in ast.iter_child_nodes(n):
+            ch._parent = n  # type: ignore[attr-defined]
+
+
+def _walk_same_scope(n: ast.AST) -> t.Iterator[ast.AST]:
+    """the nodes of a statement / block that belong to the function it is in (nested defs / lambdas / classes not entered)."""
+    yield n
+    for ch in ast.iter_child_nodes(n):
+        if isinstance(ch, (ast.FunctionDef, ast.AsyncFunctionDef, ast.Lambda, ast.ClassDef)):
+            continue
+        yield from _walk_same_scope(ch)
+
+
+def split_parallel_assigns(fn: ast.AST) -> tuple[ast.AST, int]:
+    """`a, b = x, y` -> `a = x` ; `b = y` wherever the parallel and the sequential reading agree: same number of plain
+    (unstarred) elements on both sides, one target, and no target name is read by a value to its right (`a, b = b, a`
+    stays as it is); the values must be free of calls after the first element (so that the order of effects between the
+    stores and the evaluations cannot matter).  Returns a copy with parent pointers and the number of statements split."""
+    new_fn = clone(fn)
+    count = 0
+
+    def split(st: ast.stmt) -> list[ast.stmt] | None:
+        if not isinstance(st, ast.Assign) or len(st.targets) != 1:
+            return None
+        tg, v = st.targets[0], st.value
+        if not isinstance(tg, (ast.Tuple, ast.List)) or not isinstance(v, (ast.Tuple, ast.List)) or len(tg.elts) != len(v.elts) or len(tg.elts) < 2:
+            return None
+        if any(isinstance(e, ast.Starred) for e in list(tg.elts) + list(v.elts)):
+            return None
+        if not all(isinstance(e, (ast.Name, ast.Attribute, ast.Subscript)) for e in tg.elts):
+            return None
+        for i, e in enumerate(tg.elts):
+            key = norm(e)
+            base = e.id if isinstance(e, ast.Name) else None
+            for later in v.elts[i + 1:]:
+                for x in ast.walk(later):
+                    if (base is not None and isinstance(x, ast.Name) and x.id == base) or (base is None and isinstance(x, (ast.Attribute, ast.Subscript)) and norm(x) == key):
+                        return None
+        if any(isinstance(x, (ast.Call, ast.Await, ast.Yield, ast.YieldFrom, ast.NamedExpr)) for later in v.elts[1:] for x in ast.walk(later)):
+            return None
+        if any(not isinstance(e, ast.Name) and any(isinstance(x, ast.Call) for x in ast.walk(e)) for e in tg.elts):
+            return None
+        out: list[ast.stmt] = []
+        for e, x in zip(tg.elts, v.elts):
+            out.append(ast.copy_location(ast.Assign(targets=[e], value=x), st))
+        return out
+
+    def block(stmts: list[ast.stmt]) -> list[ast.stmt]:
+        nonlocal count
+        out: list[ast.stmt] = []
+        for st in stmts:
+            rep = split(st)
+            if rep is not None:
+                count += 1
+                out += rep
+                continue
+            for f in ("body", "orelse", "finalbody"):
+                if isinstance(getattr(st, f, None), list) and not isinstance(st, ast.ClassDef):
+                    setattr(st, f, block(getattr(st, f)))
+            for h in getattr(st, "handlers", []) or []:
+                h.body = block(h.body)
+            for c in getattr(st, "cases", []) or []:
+                c.body = block(c.body)
+            out.append(st)
+        return out
+
+    new_fn.body = block(new_fn.body)
+    if count:
+        ast.fix_missing_locations(new_fn)
+    _set_parents(new_fn)
+    return new_fn, count
+
+
+def _has_return(st: ast.AST) -> bool:
+    return any(isinstance(x, ast.Return) for x in _walk_same_scope(st))
+
+
+def _always_returns(stmts: list[ast.stmt]) -> bool:
+    if not stmts:
+        return False
+    last = stmts[-1]
+    if isinstance(last, ast.Return):
+        return True
+    return isinstance(last, ast.If) and _always_returns(last.body) and _always_returns(last.orelse)
+
+
+def eliminate_bare_returns(stmts: list[ast.stmt]) -> list[ast.stmt] | None:
+    """the body of a statement helper with its bare `return`s (guard clauses) turned into if / else structure, so that
+    it can stand in the place of the call: `if c: return` + rest -> `if c: pass` / `else: rest`.  None when a return
+    carries a value, sits in a loop / try / with, or in a branch that does not always return (the rest would have to be
+    duplicated)."""
+    out: list[ast.stmt] = []
+    for i, st in enumerate(stmts):
+        if isinstance(st, ast.Return):
+            return None if st.value is not None else out
+        if not _has_return(st):
+            out.append(st)
+            continue
+        if not isinstance(st, ast.If):
+            return None
+        rest = list(stmts[i + 1:])
+        has_b, has_e = any(_has_return(s) for s in st.body), any(_has_return(s) for s in st.orelse)
+        ret_b, ret_e = _always_returns(st.body), _always_returns(st.orelse)
+        if has_b and ret_b and has_e and ret_e:
+            nb, ne = eliminate_bare_returns(st.body), eliminate_bare_returns(st.orelse)
+        elif has_b and ret_b and not has_e:
+            nb, ne = eliminate_bare_returns(st.body), eliminate_bare_returns(list(st.orelse) + rest)
+        elif has_e and ret_e and not has_b:
+            nb, ne = eliminate_bare_returns(list(st.body) + rest), eliminate_bare_returns(st.orelse)
+        else:
+            return None
+        if nb is None or ne is None:
+            return None
+        new = ast.If(test=st.test, body=nb or [ast.copy_location(ast.Pass(), st)], orelse=ne)
+        out.append(ast.copy_location(new, st))
+        return out
+    return out
+
+
+def inline_nested_helpers(fn: ast.AST) -> tuple[ast.AST, set[str]]:
+    """logic of one nested function moved into a sibling nested function: inside `fn`, a nested function h that is used
+    only as `h(a, b)` statements in other nested functions (never as a value, never from fn's own body) is expanded where
+    it is called and its definition dropped.  h must be plain (positional parameters without defaults, no decorator, no
+    generator / nested definitions); bare `return`s are turned into structure (eliminate_bare_returns); its `nonlocal`
+    declarations move to the caller (refused when the caller binds such a name as a local of its own); its locals are
+    renamed when the caller uses the same name.  One level.  Returns (copy with parent pointers, names expanded)."""
+    new_fn = clone(fn)
+    done: set[str] = set()
+    defs = [st for st in new_fn.body if isinstance(st, ast.FunctionDef)]
+    by_name = {d.name: d for d in defs}
+    if len(by_name) != len(defs):
+        return fn, done
+
+    def plain(h: ast.FunctionDef) -> bool:
+        a = h.args
+        if h.decorator_list or a.vararg or a.kwarg or a.kwonlyargs or a.defaults or a.kw_defaults:
+            return False
+        for st in h.body:
+            for x in ast.walk(st):
+                if isinstance(x, (ast.Yield, ast.YieldFrom, ast.Await, ast.Global, ast.FunctionDef, ast.AsyncFunctionDef, ast.Lambda, ast.ClassDef)):
+                    return False
+        return True
+
+    for h in defs:
+        if not plain(h):
+            continue
+        # every use of the name: the callee of a statement call inside another nested function
+        sites: list[tuple[ast.FunctionDef, ast.Expr]] = []
+        ok = True
+        for owner in [new_fn] + defs:
+            if owner is h:
+                if any(isinstance(x, ast.Name) and x.id == h.name for st in h.body for x in ast.walk(st)):
+                    ok = False  # recursion
+                continue
+            stmts = owner.body if owner is not new_fn else [st for st in new_fn.body if not isinstance(st, ast.FunctionDef)]
+            for st in stmts:
+                for x in ast.walk(st):
+                    if isinstance(x, ast.Expr) and isinstance(x.value, ast.Call) and isinstance(x.value.func, ast.Name) and x.value.func.id == h.name:
+                        c = x.value
+                        if owner is new_fn or c.keywords or any(isinstance(a, ast.Starred) for a in c.args) or len(c.args) != len(h.args.posonlyargs + h.args.args):
+                            ok = False
+                        sites.append((owner, x))  # type: ignore[arg-type]
+                n_refs = sum(1 for x in ast.walk(st) if isinstance(x, ast.Name) and x.id == h.name)
+                n_sites = sum(1 for x in ast.walk(st) if isinstance(x, ast.Expr) and isinstance(x.value, ast.Call) and isinstance(x.value.func, ast.Name) and x.value.func.id == h.name)
+                if n_refs != n_sites:
+                    ok = False
+        if not ok or not sites:
+            continue
+        body = _strip_doc(h.body)
+        h_nonlocal = [nm for st in body if isinstance(st, ast.Nonlocal) for nm in st.names]
+        body = [st for st in body if not isinstance(st, ast.Nonlocal)]
+        if any(isinstance(x, ast.Nonlocal) for st in body for x in ast.walk(st)):
+            continue
+        body2 = eliminate_bare_returns(body)
+        if body2 is None:
+            continue
+        params = [a.arg for a in h.args.posonlyargs + h.args.args]
+        stored = {x.id for st in body2 for x in ast.walk(st) if isinstance(x, ast.Name) and isinstance(x.ctx, (ast.Store, ast.Del))} - set(h_nonlocal)
+        refused = False
+        plans = []
+        for owner, site in sites:
+            o_nonlocal = {nm for st in owner.body if isinstance(st, ast.Nonlocal) for nm in st.names}
+            o_params = {a.arg for a in owner.args.posonlyargs + owner.args.args + owner.args.kwonlyargs}
+            o_stored = {x.id for st in owner.body for x in _walk_same_scope(st) if isinstance(x, ast.Name) and isinstance(x.ctx, (ast.Store, ast.Del))}
+            o_names = {x.id for st in owner.body for x in _walk_same_scope(st) if isinstance(x, ast.Name)} | o_params
+            if any(nm in (o_stored | o_params) and nm not in o_nonlocal for nm in h_nonlocal):
+                refused = True
+                break
+            # a free name of h that the caller binds as a local of its own would change meaning
+            free = {x.id for st in body2 for x in ast.walk(st) if isinstance(x, ast.Name)} - stored - set(params)
+            if any(nm in ((o_stored - o_nonlocal) | o_params) for nm in free - set(h_nonlocal)):
+                refused = True
+                break
+            plans.append((owner, site, o_nonlocal, o_names))
+        if refused:
+            continue
+        for owner, site, o_nonlocal, o_names in plans:
+            c = site.value
+            mapping: dict[str, str] = {}
+            pre: list[ast.stmt] = []
+            for prm, arg in zip(params, c.args):  # type: ignore[attr-defined]
+                if isinstance(arg, ast.Name) and prm not in stored:
+                    mapping[prm] = arg.id
+                else:
+                    mapping[prm] = f"__{h.name}__{prm}" if prm in o_names else prm
+                    asg = ast.Assign(targets=[ast.Name(id=mapping[prm], ctx=ast.Store())], value=clone(arg))
+                    pre.append(ast.fix_missing_locations(ast.copy_location(asg, site)))
+            for nm in stored:
+                mapping.setdefault(nm, f"__{h.name}__{nm}" if nm in o_names else nm)
+            rep = pre + clone(body2)
+            for st in rep:
+                for x in ast.walk(st):
+                    if isinstance(x, ast.Name) and x.id in mapping:
+                        x.id = mapping[x.id]
+            rep = rep or [ast.copy_location(ast.Pass(), site)]
+
+            def put(stmts: list[ast.stmt]) -> bool:
+                for i, st in enumerate(stmts):
+                    if st is site:
+                        stmts[i:i + 1] = rep
+                        return True
+                    for f in ("body", "orelse", "finalbody"):
+                        sub = getattr(st, f, None)
+                        if isinstance(sub, list) and not isinstance(st, (ast.FunctionDef, ast.AsyncFunctionDef, ast.ClassDef)) and put(sub):
+                            return True
+                    for hd in getattr(st, "handlers", []) or []:
+                        if put(hd.body):
+                            return True
+                return False
+
+            if not put(owner.body):
+                return fn, set()
+            missing = [nm for nm in h_nonlocal if nm not in o_nonlocal]
+            if missing:
+                decl = ast.fix_missing_locations(ast.copy_location(ast.Nonlocal(names=missing), owner.body[0]))
+                at = 1 if _strip_doc(owner.body) is not owner.body and len(_strip_doc(owner.body)) != len(owner.body) else 0
+                owner.body.insert(at, decl)
+        new_fn.body = [st for st in new_fn.body if st is not h]
+        done.add(h.name)
+    if not done:
+        return fn, done
+    ast.fix_missing_locations(new_fn)
+    _set_parents(new_fn)
+    return new_fn, done
+
+
+def _ends_in_return_or_raise(stmts: list[ast.stmt]) -> bool:
+    if not stmts:
+        return False
+    last = stmts[-1]
+    if isinstance(last, (ast.Return, ast.Raise)):
+        return True
+    if isinstance(last, ast.If):
+        return _ends_in_return_or_raise(last.body) and _ends_in_return_or_raise(last.orelse)
+    if isinstance(last, ast.Try):
+        main = last.orelse if last.orelse else last.body
+        return not last.finalbody and _ends_in_return_or_raise(main) and all(_ends_in_return_or_raise(h.body) for h in last.handlers)
+    if isinstance(last, ast.With):
+        return _ends_in_return_or_raise(last.body)
+    return False
+
+
+def returns_to_statements(stmts: list[ast.stmt], hand_back: t.Callable[[ast.AST], ast.stmt]) -> list[ast.stmt] | None:
+    """the body of a helper that hands a value back, in the place of `T = helper(...)`: every `return <expr>` must be the
+    last thing its path does before the helper is left (the last statement of the body, or of a branch / try part that
+    ends the body) and becomes hand_back(<expr>); every path must end in such a return or in a raise.  None otherwise
+    (a return inside a loop, in the middle of a block, under `finally`, or a path that falls off the end)."""
+    if not _ends_in_return_or_raise(stmts):
+        return None
+
+    def conv(block: list[ast.stmt]) -> list[ast.stmt] | None:
+        out: list[ast.stmt] = []
+        for i, st in enumerate(block):
+            last = i == len(block) - 1
+            if isinstance(st, ast.Return):
+                if not last or st.value is None:
+                    return None
+                out.append(hand_back(st.value))
+            elif not _has_return(st):
+                out.append(st)
+            elif not last:
+                return None
+            elif isinstance(st, ast.If):
+                b, e = conv(st.body), conv(st.orelse)
+                if b is None or e is None:
+                    return None
+                st.body, st.orelse = b, e
+                out.append(st)
+            elif isinstance(st, ast.Try):
+                if st.finalbody or (st.orelse and any(_has_return(x) for x in st.body)):
+                    return None
+                b = conv(st.body) if not st.orelse else st.body
+                e = conv(st.orelse) if st.orelse else []
+                hs = [conv(h.body) for h in st.handlers]
+                if b is None or e is None or any(h is None for h in hs):
+                    return None
+                st.body, st.orelse = b, e
+                for h, nb in zip(st.handlers, hs):
+                    h.body = nb  # type: ignore[assignment]
+                out.append(st)
+            elif isinstance(st, ast.With):
+                b = conv(st.body)
+                if b is None:
+                    return None
+                st.body = b
+                out.append(st)
+            else:
+                return None
+        return out
+
+    return conv(stmts)
+
+
+def inline_value_helpers(fn: ast.AST, methods: dict[str, ast.AST], functions: dict[str, ast.AST], exclude: t.Collection[str] = (), depth: int = 2) -> tuple[ast.AST, set[str]]:
+    """a computation moved into a helper that hands its result back:
+
+    * `f(a, b)` / `self.m(a, b)` anywhere in an expression, where the helper's body is a single `return <expr>`: replaced
+      by <expr> with the parameters replaced by the arguments (a parameter used more than once must receive a name, a
+      constant or an attribute chain, so that nothing is evaluated twice);
+    * `T = f(a)` / `return f(a)` where the helper's body is straight-line assignments and a final `return <expr>`: the
+      assignments (locals renamed, parameters bound first) and `T = <expr>` / `return <expr>` take the statement's place.
+
+    Helpers are plain: positional parameters, no defaults / decorators, no nested definitions, generators, global /
+    nonlocal.  Methods are keyed by name and called on `self`; functions are module-level and called by name.  Applied
+    `depth` times.  Returns (copy with parent pointers, helper names expanded); fn itself when nothing applies."""
+    done: set[str] = set()
+
+    def callee(c: ast.AST) -> tuple[str, ast.FunctionDef, bool] | None:
+        if not isinstance(c, ast.Call) or c.keywords or any(isinstance(a, ast.Starred) for a in c.args):
+            return None
+        if isinstance(c.func, ast.Name) and c.func.id in functions and c.func.id not in exclude:
+            h, is_m, name = functions[c.func.id], False, c.func.id
+        elif _self_method_call(c) in methods and _self_method_call(c) not in exclude:
+            name = _self_method_call(c)  # type: ignore[assignment]
+            h, is_m = methods[name], True
+        else:
+            return None
+        if not isinstance(h, ast.FunctionDef) or h.decorator_list or h is fn_src:
+            return None
+        a = h.args
+        if a.vararg or a.kwarg or a.kwonlyargs or a.defaults or a.kw_defaults:
+            return None
+        n_params = len(a.posonlyargs + a.args) - (1 if is_m else 0)
+        if n_params != len(c.args) or (is_m and (not a.args or a.args[0].arg != "self")):
+            return None
+        for st in h.body:
+            for x in ast.walk(st):
+                if isinstance(x, (ast.Yield, ast.YieldFrom, ast.Await, ast.Global, ast.Nonlocal, ast.FunctionDef, ast.AsyncFunctionDef, ast.Lambda, ast.ClassDef, ast.NamedExpr)):
+                    return None
+        return name, h, is_m
+
+    def params_of(h: ast.FunctionDef, is_m: bool) -> list[str]:
+        ps = [x.arg for x in h.args.posonlyargs + h.args.args]
+        return ps[1:] if is_m else ps
+
+    def simple(e: ast.AST) -> bool:
+        return isinstance(e, (ast.Name, ast.Constant)) or (isinstance(e, ast.Attribute) and simple(e.value))
+
+    def expr_of(c: ast.Call) -> ast.AST | None:
+        got = callee(c)
+        if got is None:
+            return None
+        name, h, is_m = got
+        body = _strip_doc(h.body)
+        if len(body) != 1 or not isinstance(body[0], ast.Return) or body[0].value is None:
+            return None
+        e = body[0].value
+        ps = params_of(h, is_m)
+        uses = {p: sum(1 for x in ast.walk(e) if isinstance(x, ast.Name) and x.id == p) for p in ps}
+        if any(isinstance(x, (ast.ListComp, ast.SetComp, ast.DictComp, ast.GeneratorExp)) for x in ast.walk(e)):
+            return None
+        sub = {}
+        for p, a_ in zip(ps, c.args):
+            if uses[p] > 1 and not simple(a_):
+                return None
+            sub[p] = a_
+
+        class T(ast.NodeTransformer):
+            def visit_Name(self, n: ast.Name) -> ast.AST:  # noqa: N802
+                return clone(sub[n.id]) if n.id in sub and isinstance(n.ctx, ast.Load) else n
+
+        done.add(name)
+        return ast.copy_location(T().visit(clone(e)), c)
+
+    def stmts_of(st: ast.stmt) -> list[ast.stmt] | None:
+        if isinstance(st, (ast.Assign, ast.AnnAssign, ast.Return)) and isinstance(st.value, ast.Call):
+            c = st.value
+        else:
+            return None
+        got = callee(c)
+        if got is None:
+            return None
+        name, h, is_m = got
+        body = _strip_doc(h.body)
+        if not body or (len(body) == 1 and isinstance(body[0], ast.Return)):
+            return None  # a single expression: handled where the call stands
+        ps = params_of(h, is_m)
+        stored = {x.id for s in body for x in ast.walk(s) if isinstance(x, ast.Name) and isinstance(x.ctx, (ast.Store, ast.Del))}
+        mapping: dict[str, str] = {}
+        pre: list[ast.stmt] = []
+        direct: dict[str, ast.AST] = {}  # parameters that stand for a name / constant / attribute chain of the caller
+        for p, a_ in zip(ps, c.args):
+            if isinstance(a_, ast.Name) and p not in stored:
+                mapping[p] = a_.id
+            elif simple(a_) and p not in stored:
+                direct[p] = a_
+            else:
+                mapping[p] = f"__{name}__{p}"
+                pre.append(ast.fix_missing_locations(ast.copy_location(ast.Assign(targets=[ast.Name(id=mapping[p], ctx=ast.Store())], value=clone(a_)), st)))
+        for nm in stored:
+            mapping.setdefault(nm, f"__{name}__{nm}")
+
+        class Put(ast.NodeTransformer):
+            def visit_Name(self, n: ast.Name) -> ast.AST:  # noqa: N802
+                if n.id in direct and isinstance(n.ctx, ast.Load):
+                    return ast.copy_location(clone(direct[n.id]), n)
+                if n.id in mapping:
+                    n.id = mapping[n.id]
+                return n
+
+        renamed = [Put().visit(s) for s in clone(body)]
+
+        def hand_back(value: ast.AST) -> ast.stmt:  # the statement's own targets are the caller's names
+            last = clone(st)
+            last.value = value
+            return ast.copy_location(last, st)
+
+        conv = returns_to_statements(renamed, hand_back)
+        if conv is None:
+            return None
+        done.add(name)
+        return pre + conv
+
+    class Exprs(ast.NodeTransformer):
+        def visit_Call(self, c: ast.Call) -> ast.AST:  # noqa: N802
+            self.generic_visit(c)
+            e = expr_of(c)
+            return e if e is not None else c
+
+    def block(stmts: list[ast.stmt]) -> list[ast.stmt]:
+        out: list[ast.stmt] = []
+        for st in stmts:
+            rep = stmts_of(st)
+            if rep is not None:
+                out += rep
+                continue
+            for f in ("body", "orelse", "finalbody"):
+                if isinstance(getattr(st, f, None), list) and not isinstance(st, (ast.FunctionDef, ast.AsyncFunctionDef, ast.ClassDef)):
+                    setattr(st, f, block(getattr(st, f)))
+            for hd in getattr(st, "handlers", []) or []:
+                hd.body = block(hd.body)
+            out.append(st)
+        return out
+
+    fn_src = fn
+    cur = fn
+    for _ in range(depth):
+        before = set(done)
+        new_fn = clone(cur)
+        new_fn.body = block(new_fn.body)
+        new_fn = Exprs().visit(new_fn)
+        if done == before:
+            break
+        cur = new_fn
+    if cur is fn:
+        return fn, done
+    ast.fix_missing_locations(cur)
+    _set_parents(cur)
+    return cur, done
+
+
 def fold_pending_header(fn: ast.AST, lenreader: str) -> tuple[ast.AST, str | None]:
     """the chunk size kept in a local before it is stored:
 
